@@ -119,10 +119,16 @@ def main():
             for f in files:
                 try:
                     _, stmts, _, missing, _ = cov.analysis2(f)
-                    an = cov._analyze(f)
-                    nb = an.numbers
-                    summary[os.path.relpath(f, "/repo")] = {"statements": len(stmts), "executed": len(stmts) - len(missing), "missing_lines": missing[:60],
-                                                            "branches": nb.n_branches, "branches_missed": nb.n_missing_branches}
+                    # only statements inside function bodies count: module-level code ran at import time, before the measurement
+                    import ast
+                    body = set()
+                    for node in ast.walk(ast.parse(open(f, encoding="utf-8").read())):
+                        if isinstance(node, (ast.FunctionDef, ast.AsyncFunctionDef)):
+                            for st in node.body:
+                                body.update(range(st.lineno, (st.end_lineno or st.lineno) + 1))
+                    st_in = [l for l in stmts if l in body]; miss_in = [l for l in missing if l in body]
+                    summary[os.path.relpath(f, "/repo")] = {"statements_in_function_bodies": len(st_in), "executed": len(st_in) - len(miss_in),
+                                                            "missing_lines": miss_in[:80]}
                 except Exception as e:
                     summary[os.path.relpath(f, "/repo")] = {"error": type(e).__name__}
             res.stats["impl_coverage_of_anchor_files"] = summary
